@@ -47,8 +47,9 @@ carquet_status_t carquet_bloom_filter_read(carquet_bloom_filter_t**, const uint8
 carquet_status_t carquet_dictionary_encode_int32(const int32_t*, int64_t, carquet_buffer_t*, carquet_buffer_t*);
 
 static const char* TMP = "/tmp";
+static int WIDE_VARIANT = 0;
 static table_t* make_table(int codec, int wide) { __lsan_disable(); vrng_t r; vrng_seed(&r, 4242 + (uint64_t)codec * 7 + (uint64_t)wide); tgen_t gp = {wide == 1 ? 1 : wide == 2 ? 3 : 5, wide == 1 ? 6 : wide == 2 ? 150 : 30, 0, wide == 2 ? (int)CARQUET_PHYSICAL_BYTE_ARRAY : -1, -1, codec, 64, wide == 1 ? 3 : 2};   /* wide == 2: BYTE_ARRAY columns whose chunks span many 64-byte pages */ table_t* t = tbl_generate(&r, &gp);
-    if (wide == 1) { /* widen to many columns so that the writer's 4 KiB arena and the footer arenas must grow */ int nc = 260; tcol_t* cols = calloc((size_t)nc, sizeof(tcol_t)); for (int c = 0; c < nc; c++) { cols[c] = t->cols[0]; snprintf(cols[c].name, sizeof cols[c].name, "wide_column_with_a_long_name_%04d", c); }
+    if (wide == 1) { /* widen to many columns so that the writer's 4 KiB arena and the footer arenas must grow */ int nc = 260; tcol_t* cols = calloc((size_t)nc, sizeof(tcol_t)); for (int c = 0; c < nc; c++) { cols[c] = t->cols[0]; snprintf(cols[c].name, sizeof cols[c].name, "wide_column_with_a_long_name_%0*d", 4 + WIDE_VARIANT * 3, c);   /* the variant moves every arena block boundary of the footer parser onto other allocations */ }
         for (int g = 0; g < t->nrg; g++) { tchunk_t* ch = calloc((size_t)nc, sizeof(tchunk_t)); for (int c = 0; c < nc; c++) { ch[c] = t->rg[g][0]; } /* chunks alias column 0's arrays; never freed individually */ t->rg[g] = ch; } t->cols = cols; t->ncols = nc; }
     __lsan_enable(); return t; }
 
@@ -132,7 +133,7 @@ static int run_scenario(const char* sc, const char* file, const char* tdmp) {
     if (!strcmp(sc, "widewrite")) return sc_write(CARQUET_COMPRESSION_UNCOMPRESSED, 1);
     if (!strncmp(sc, "goon", 4)) { int codec = atoi(sc + 4); return sc_write_on(T_CODECS[codec % 5]); }
     if (!strcmp(sc, "misc")) return sc_misc();
-    if (!strncmp(sc, "wideread", 8)) { int mode = atoi(sc + 8) % 3; table_t* t = make_table(CARQUET_COMPRESSION_UNCOMPRESSED, 1); char ref[600]; snprintf(ref, sizeof ref, "%s/ref_wide.parquet", TMP);
+    if (!strncmp(sc, "wideread", 8)) { int mode = atoi(sc + 8) % 3; WIDE_VARIANT = (atoi(sc + 8) / 3) % 10; table_t* t = make_table(CARQUET_COMPRESSION_UNCOMPRESSED, 1); char ref[600]; snprintf(ref, sizeof ref, "%s/ref_wide_%d.parquet", TMP, WIDE_VARIANT);
         if (access(ref, F_OK) != 0) { twrite_result_t res; vrng_t r; vrng_seed(&r, 7); if (!tbl_write_path(&r, t, ref, &res) || !res.all_ok) { fprintf(stderr, "driver: cannot prepare wide reference file\n"); exit(2); } }
         return sc_read(t, ref, mode, 0); }
     if (!strncmp(sc, "read", 4) || !strncmp(sc, "batch", 5) || !strncmp(sc, "dict", 4) || !strncmp(sc, "whole", 5)) { int use_batch = sc[0] == 'b' ? 1 : sc[0] == 'w' ? 2 : 0; int mode = atoi(sc + (sc[0] == 'b' || sc[0] == 'w' ? 5 : 4)); table_t* t; char ref[600];
